@@ -41,6 +41,13 @@ Proof.
 Qed.
 Print Assumptions C02_iteration_order_independent.
 
+(* KNOWN FINDING K-C02-abc (open): the PEP 585 spelling through collections.abc / collections is NOT covered by
+   C02_complete (`supported` excludes SpAbc): the faithful model rejects a conforming value there. *)
+Theorem C02_abc_spelling_refuted : exists a v, conforms (fun _ => None) a v = Must /\
+  fst (assert_matches1 cfg (fun _ => None) a v []) = Raise PTypeCheckC /\ supported (fun _ => None) a = false.
+Proof. exists (AGeneric SpAbc TSequence [ACls CInt]), (VList [VInt 1]). repeat split; vm_compute; reflexivity. Qed.
+Print Assumptions C02_abc_spelling_refuted.
+
 (* non-vacuity *)
 Definition a1 : ann := AGeneric SpBuiltin TList [AUnion UTyping [ACls CInt; ACls CNoneType]].     (* list[Optional[int]] *)
 Definition a2 : ann := AGeneric SpTyping TList [AUnion UPipe [ACls CNoneType; ACls CInt]].         (* List[None | int] *)
